@@ -35,6 +35,11 @@ type arg struct {
 
 func f(a arg) int { return a.id*1000 + 7 }
 
+// Two shard key types whose values print alike: shardA(1) and shardB(1) are
+// different shards.
+type shardA int
+type shardB int
+
 type manyCall struct {
 	seq     uint64
 	args    []arg
@@ -104,6 +109,15 @@ func (w *batchWorld) many(shardMod int) func(ctx context.Context, args []interfa
 				w.c.Fault("batch-many-error")
 				return nil, mc.err
 			case 2:
+				if w.c.Choose(3, "panic-value") == 0 {
+					// panic(nil) (the module's go version keeps the old meaning, see
+					// the go:debug line of the test binary): recover() returns nil,
+					// and what the callers then see is a result of the wrong length
+					mc.outcome = "short"
+					w.c.Fault("batch-many-panic-nil")
+					var nothing interface{}
+					panic(nothing)
+				}
 				mc.outcome = "panic"
 				w.c.Fault("batch-many-panic")
 				panic(fmt.Sprintf("boom-%d", len(w.calls)))
@@ -158,13 +172,21 @@ func batchBody(c *runner.Ctx) {
 	waitInterval := []time.Duration{0, time.Millisecond, 5 * time.Millisecond}[c.Choose(3, "wait-interval")]
 	maxDuration := []time.Duration{0, 3 * time.Millisecond, 20 * time.Millisecond}[c.Choose(3, "max-duration")]
 	shardMod := []int{0, 2, 3}[c.Choose(3, "shard")]
+	typedShards := c.Choose(2, "typed-shard-keys") == 1
 	nFuncs := 1 + c.Choose(2, "funcs")
 	var funcs []*batch.Func
 	for i := 0; i < nFuncs; i++ {
 		bf := &batch.Func{MaxSize: maxSize, WaitInterval: waitInterval, MaxDuration: maxDuration}
 		bf.Many = w.many(shardMod)
 		if shardMod > 0 {
-			bf.Shard = func(x interface{}) interface{} { return x.(arg).shard }
+			bf.Shard = func(x interface{}) interface{} {
+				// arg.shard = value + 100*kind
+				if s := x.(arg).shard; s >= 100 {
+					return shardB(s - 100)
+				} else {
+					return shardA(s)
+				}
+			}
 		}
 		funcs = append(funcs, bf)
 	}
@@ -203,6 +225,9 @@ func batchBody(c *runner.Ctx) {
 			a := arg{id: nextID, bctx: ci*10 + fi, shard: -1}
 			if shardMod > 0 {
 				a.shard = nextID % shardMod
+				if typedShards && (nextID/shardMod)%2 == 1 {
+					a.shard += 100
+				}
 			}
 			nextID++
 			r := &invokeRec{a: a}
